@@ -67,6 +67,9 @@ type equivChecker struct {
 	current     declKey
 	bound       int
 	intMerge    bool
+	under       string // label of the contract whose preconditions are assumed ("" = none)
+	memoUnder   map[string]*equivResult
+	assumed     int
 	lock        bool            // the comparison under way cuts data-dependent loops in lockstep
 	lockLoops   map[string]bool // which loops
 	symA, symB  map[string]bool // data-dependent loops seen in the bounded runs of the two versions
@@ -428,6 +431,12 @@ func (c *equivChecker) compare1(k declKey, fnNew, fnBase *ssa.Function, merge bo
 		cell := newCell(fmt.Sprintf("cap%d", i), et)
 		st0.store[cell] = x.symValue(st0, et, fmt.Sprintf("cap%d", i))
 		bind = append(bind, &Ptr{cell: cell})
+	}
+	if c.under != "" {
+		// the comparison is made under the preconditions of the contract whose obligations are to
+		// be carried over (they are proved under exactly these; callers establish them). A clause
+		// the engine cannot evaluate here is left out: fewer hypotheses are always sound.
+		c.assumeRequires(st0, fnNew, fnBase, args, bind)
 	}
 	entryCells := map[*Cell]bool{}
 	for cl := range st0.store {
@@ -1620,4 +1629,108 @@ func (c *eqCmp) veq(a, b Value) (t *Term) {
 		}
 	}()
 	return c.x.valuesEqual(a, b)
+}
+
+// assumeRequires assumes the unquantified preconditions of contract c.under on
+// the common entry state of the two runs.
+func (c *equivChecker) assumeRequires(st *State, fnNew, fnBase *ssa.Function, args, bind []Value) {
+	x := c.eng.x
+	var ct *Contract
+	for _, k := range c.eng.cs.contracts {
+		if k.label() == c.under {
+			ct = k
+		}
+	}
+	c.assumed = 0
+	if ct == nil || ct.lemma {
+		return
+	}
+	env := &Env{vars: map[string]Value{}, pkg: x.pkgByNm[ct.pkg]}
+	for i, p := range fnBase.Params {
+		env.vars[p.Name()] = args[i] // the names the contract was written with
+	}
+	for i, p := range fnNew.Params {
+		if _, ok := env.vars[p.Name()]; !ok {
+			env.vars[p.Name()] = args[i]
+		}
+	}
+	for i, fv := range fnBase.FreeVars {
+		if i < len(bind) {
+			if p, ok := bind[i].(*Ptr); ok && p.cell != nil {
+				env.vars[fv.Name()] = st.store[p.cell]
+			}
+		}
+	}
+	x.curEnv = env
+	x.curInputs = map[string]Value{}
+	try := func(f func()) (ok bool) {
+		defer func() {
+			if r := recover(); r != nil {
+				if _, isE := r.(engineErr); isE {
+					ok = false
+					return
+				}
+				panic(r)
+			}
+		}()
+		f()
+		return true
+	}
+	x.specMode++
+	defer func() { x.specMode-- }()
+	for _, l := range ct.prelets {
+		l := l
+		try(func() { env.vars[l.name] = x.eval(st, env, l.expr) })
+	}
+	for _, cl := range ct.requires {
+		if len(cl.vars) > 0 {
+			continue
+		}
+		cl := cl
+		if try(func() { st.assume(x.evalBool(st, env, cl.expr)) }) {
+			c.assumed++
+		}
+	}
+}
+
+// checkUnder compares k with its predecessor under the preconditions of the
+// contract labelled label (used when the unconditional comparison fails).
+func (c *equivChecker) checkUnder(k declKey, label string) *equivResult {
+	if c.memoUnder == nil {
+		c.memoUnder = map[string]*equivResult{}
+	}
+	mk := k.String() + "|" + label
+	if r, ok := c.memoUnder[mk]; ok {
+		return r
+	}
+	if c.started.IsZero() {
+		c.started = time.Now()
+	}
+	if time.Since(c.started) > equivBudget || c.err != nil || c.eng == nil {
+		r := &equivResult{Status: "unavailable", Detail: "time budget of the equivalence fallback exhausted"}
+		c.memoUnder[mk] = r
+		return r
+	}
+	t0 := time.Now()
+	saved, had := c.memo[k]
+	delete(c.memo, k)
+	c.under = label
+	r := c.check1(k)
+	c.under = ""
+	if had {
+		c.memo[k] = saved
+	} else {
+		delete(c.memo, k)
+	}
+	if r.carries() {
+		if c.assumed == 0 {
+			// nothing could be assumed: this is the unconditional comparison again
+			r = &equivResult{Status: "unavailable", Detail: "no precondition of " + label + " could be assumed"}
+		} else {
+			r.Detail = strings.TrimSpace(r.Detail + fmt.Sprintf(" under %d precondition(s) of %s", c.assumed, label))
+		}
+	}
+	r.Ms = time.Since(t0).Milliseconds()
+	c.memoUnder[mk] = r
+	return r
 }
